@@ -18,7 +18,9 @@ RULE = ("A: every program of the C01 space (AST size <= S, three function kinds,
         "stackscope's trickery analysis for EVERY n (found by counting a fault-free run): must produce an InspectionWarning, no "
         "exception, and a result meeting the same over-approximation. C: every sequence of length <= 4 over "
         "{set(True), set(False), set(None), extract} x {thread 1, thread 2}; observed mode (start_line is None or not) must "
-        "equal the last value set (None = auto-detect = trickery on CPython). evaluations = observations; "
+        "equal the last value set (None = auto-detect = trickery on CPython). D: set_trickery_enabled calls racing the auto-detection that runs "
+        "inside the first extraction: all schedules with <= 2 preemptions (line granularity inside the detection routine and the "
+        "setter, the mode lock a model lock); an explicit setting must never be overridden by the detection. evaluations = observations; "
         "distinct_nontrivial = distinct (program, kind) + injection points + sequences.")
 ASSUMPTIONS = ["managers' __exit__/__aexit__ are plain methods named __exit__/__aexit__ (documented limitation of the referents analysis)",
                "injection granularity is one source line of stackscope's own modules"]
@@ -42,6 +44,8 @@ def legs(tier):
         out.append(Leg(v, n, args={"leg": "A"}, name=v + "-A"))
         out.append(Leg(v, 3 if tier == "quick" else 8, args={"leg": "B"}, name=v + "-B"))
         out.append(Leg(v, 1, args={"leg": "C"}, name=v + "-C"))
+        if v in ("3.12", "3.9"):
+            out.append(Leg(v, 3, args={"leg": "D"}, name=v + "-D"))
     return out
 
 
@@ -422,8 +426,116 @@ def run_C(ctx):
         w.go.release()
 
 
+# ------------------------------------------------------------------ leg D: the mode switch racing the auto-detection
+D_SCENARIOS = [
+    # one setter thread (ops in order) + extracting threads; the auto-detection (mode None) runs inside the first extraction
+    {"setter": [False], "extractors": 1},
+    {"setter": [True], "extractors": 1},
+    {"setter": [False, None], "extractors": 1},
+    {"setter": [False], "extractors": 2},
+    {"setter": [None, False], "extractors": 1},
+]
+
+
+def run_D_scenario(si, bound):
+    from vlib import schedx
+    import stackscope
+    import stackscope._lowlevel as ll
+    from stackscope import lowlevel
+    sc = D_SCENARIOS[si]
+    sched_ref = [None]
+    lock = schedx.ModelLock(sched_ref)
+    orig_lock = ll._trickery_lock
+    ll._trickery_lock = lock
+    src, withs = ps.render((("with1", (("susp",),)),), "gen")
+    fn = ps.compile_prog(src)
+    g = fn(ps.Rt(()))
+    next(g)
+    events = []
+
+    def mode_of(st):
+        c = st.frames[0].contexts
+        if len(c) != 1:
+            return "bad:%r" % (c,)
+        return "trickery" if c[0].start_line is not None else "referents"
+    try:
+        def make():
+            sched_ref[0] = None
+            lock.owner = None
+            lowlevel.set_trickery_enabled(None)
+            del events[:]
+            s = schedx.Sched(trace_codes=[ll._check_trickery_available.__code__, ll.set_trickery_enabled.__code__])
+            sched_ref[0] = s
+
+            def setter(tc):
+                for v in sc["setter"]:
+                    s.point(("before-set", v))
+                    lowlevel.set_trickery_enabled(v)
+                    events.append(("set-returned", v))
+
+            def extractor(tc):
+                s.point(("before-extract", tc.name))
+                seen_sets = len([e for e in events if e[0] == "set-returned"])
+                import io
+                import contextlib
+                with warnings.catch_warnings():
+                    warnings.simplefilter("ignore")
+                    with contextlib.redirect_stderr(io.StringIO()):
+                        st = stackscope.extract(g)
+                events.append(("extracted", tc.name, mode_of(st), seen_sets))
+            s.add("SET", setter)
+            for i in range(sc["extractors"]):
+                s.add("X%d" % i, extractor)
+            return s
+
+        def check(s, ex):
+            problems = []
+            sched_ref[0] = None
+            for tc in s.threads:
+                if tc.exc is not None:
+                    problems.append("thread %s raised %r" % (tc.name, tc.exc))
+            # an explicit setting is never overridden by the auto-detection: afterwards the mode is that of the last set
+            last = sc["setter"][-1]
+            want = "referents" if last is False else "trickery"
+            with warnings.catch_warnings():
+                warnings.simplefilter("ignore")
+                final = mode_of(stackscope.extract(g))
+            if final != want:
+                problems.append("after set_trickery_enabled%r returned (racing the auto-detection), a later extraction uses %s, expected %s; events %r" % (
+                    tuple(sc["setter"]), final, want, events))
+            # an extraction that started after ALL sets had returned must already see the final mode
+            for e in events:
+                if e[0] == "extracted" and e[3] == len(sc["setter"]) and e[2] != want:
+                    problems.append("extraction started after the last set returned but used %s" % e[2])
+            return problems
+
+        def outcome(s, ex):
+            return tuple((e[0], e[2]) for e in events if e[0] == "extracted")
+        return schedx.explore(make, check, bound, on_exec=outcome)
+    finally:
+        ll._trickery_lock = orig_lock
+        sched_ref[0] = None
+        lowlevel.set_trickery_enabled(None)
+
+
+def run_D(ctx):
+    bound = 2
+    for si in range(len(D_SCENARIOS)):
+        if not ctx.mine(si):
+            continue
+        res = run_D_scenario(si, bound)
+        ctx.count("race_schedules", res["executions"])
+        ctx.count("evaluations", res["executions"])
+        ctx.count("distinct_nontrivial", res["executions"])
+        ctx.sample({"leg": "D", "scenario": D_SCENARIOS[si], "schedules": res["executions"], "points": res["points"], "distinct_outcomes": res["distinct_outcomes"]})
+        for choices, problems in res["violations"]:
+            ctx.violation({"leg": "D", "scenario": si, "choices": choices}, "; ".join(problems)[:1200], "race:" + problems[0].split(" ")[0])
+
+
 def run(ctx):
     leg = ctx.args.get("leg")
+    if leg == "D":
+        return run_D(ctx)
     if leg == "A":
         run_A(ctx)
     elif leg == "B":
@@ -442,6 +554,23 @@ def replay(case):
         lowlevel.set_trickery_enabled(True)
         st = {"selftest": True} if case.get("selftest") else {}
         return replay_case(case, lambda withs: InjectObserver(withs, st))
+    if case.get("leg") == "D":
+        from vlib import schedx
+        orig = schedx.explore
+
+        def one(make, check, bound, on_exec=None, max_execs=None, first_prefix=()):
+            sch = make()
+            ex = sch.run(tuple(case["choices"]))
+            if ex.diverged:
+                raise schedx.HarnessError(ex.diverged)
+            probs = (["deadlock"] if ex.deadlock else []) + check(sch, ex)
+            return {"executions": 1, "points": len(ex.points), "violations": [(case["choices"], probs)] if probs else [], "capped": False, "distinct_outcomes": 1}
+        schedx.explore = one
+        try:
+            res = run_D_scenario(case["scenario"], 0)
+        finally:
+            schedx.explore = orig
+        return [{"detail": "; ".join(p)} for c, p in res["violations"]]
     # leg C: re-run the single sequence
     import stackscope
     src, withs = ps.render((("with1", (("susp",),)),), "gen")
